@@ -61,7 +61,8 @@ func Vary(t *rapid.T, p *Prog, pctPar int) (*Prog, int) {
 // including literals that are lexically fine but malformed.
 var Vocabulary = []Tok{
 	W("var"), W("def"), W("eval"), W("print"), W("bind"), W("true"), W("false"), W("nil"), W("not"), W("and"), W("or"),
-	W("a"), W("b"), W("x"), W("s"), W("t"), W("struct"), W("slice"), W("first"), W("last"), W("all"), W("TYPE"), W("_"),
+	W("a"), W("b"), W("x"), W("s"), W("t"), W("struct"), W("slice"), W("first"), W("last"), W("all"), W("TYPE"), W("_"), W("_y"), W("__"),
+	N("01"), N("0x1"), N("0X01"),
 	N("0"), N("1"), N("2"), N("42"), N("0x1F"), N("017"), N("1.5"), N("1e3"), N("2.5E-3"),
 	S(`""`), S(`"a"`), S(`"x y"`), S(`"\n"`), S(`"#;"`),
 	P("=="), P("!="), P("<="), P(">="), P("->"), P("="), P("{"), P("}"), P("("), P(")"), P("<"), P(">"),
@@ -135,6 +136,20 @@ func GenMutation(t *rapid.T, toks []Tok, hostilePct int) Mutation {
 		}
 		if len(at) > 0 {
 			return Mutation{Kind: "insert", At: Pick(t, "asgat", at) + 1, Tok: P("=")}
+		}
+	}
+	// a block name that the lexer accepts and the language rejects
+	if Chance(t, 4, "badblockname") {
+		for i := 2; i < len(toks); i++ {
+			if toks[i].K == KStr && toks[i-2].S == "def" && toks[i-2].K == KWord {
+				var strs []Tok
+				for _, h := range HostileLiterals {
+					if h.K == KStr {
+						strs = append(strs, h)
+					}
+				}
+				return Mutation{Kind: "replace", At: i, Tok: Pick(t, "badname", strs)}
+			}
 		}
 	}
 	// a typo-like replacement by a confusable token
